@@ -357,3 +357,36 @@ func verifLemmaRowColumnAgree(s *Seq, pos, row int) (a, b, c alphabet.Letter) {
 func verifLemmaQRowColumnAgree(s *QSeq, pos, row int) (a, b alphabet.QLetter) {
 	return QRow{Align: s, Row: row}.At(pos), s.ColumnQL(pos, true)[row]
 }
+
+// ---- Add (C07): thin safety contract: rows are added to the columns of the alignment's own span ----
+//@ func (*Seq).column
+//@   property C07
+//@   requires wf0(s) && s.Alpha != nil && forall k int :: 0 <= k && k < len(m) ==> m[k] != nil
+//@   ensures fresh(result)
+//@   assigns fresh
+//@   loop 1 invariant 0 <= idx && idx <= len(m) && fresh(c) && allocated(c)
+//@   loop 1 writes fresh
+
+//@ func (*Seq).Add
+//@   property C07
+//@   requires wf(s) && s.Alpha != nil && forall k int :: 0 <= k && k < len(n) ==> n[k] != nil
+//@   ensures [columns] len(s.Seq) == old(len(s.Seq)) && result == nil
+//@   loop 1 invariant s.Offset <= i && i <= s.Offset + len(s.Seq) && wf0(s) && s.Seq == old(s.Seq) && s.Offset == old(s.Offset) && s.Alpha == old(s.Alpha)
+//@   loop 2 invariant 0 <= idx && idx <= len(n)
+//@ spec wf0(s *Seq) bool = s != nil && len(s.Seq) > 0
+
+//@ func (*QSeq).column
+//@   property C07
+//@   requires qwf0(s) && s.Alpha != nil && forall k int :: 0 <= k && k < len(m) ==> m[k] != nil
+//@   ensures fresh(result)
+//@   assigns fresh
+//@   loop 1 invariant 0 <= idx && idx <= len(m) && fresh(c) && allocated(c)
+//@   loop 1 writes fresh
+
+//@ func (*QSeq).Add
+//@   property C07
+//@   requires qwf(s) && s.Alpha != nil && forall k int :: 0 <= k && k < len(n) ==> n[k] != nil
+//@   ensures [columns] len(s.Seq) == old(len(s.Seq)) && result == nil
+//@   loop 1 invariant s.Offset <= i && i <= s.Offset + len(s.Seq) && qwf0(s) && s.Seq == old(s.Seq) && s.Offset == old(s.Offset) && s.Alpha == old(s.Alpha)
+//@   loop 2 invariant 0 <= idx && idx <= len(n)
+//@ spec qwf0(s *QSeq) bool = s != nil && len(s.Seq) > 0
